@@ -1,4 +1,197 @@
 package harness
 
-// RunFree is filled in by free.go's real implementation (race and linearizability runs).
-func RunFree(sc *Scenario) ([]Event, string) { return nil, "" }
+import (
+	"context"
+	"encoding/json"
+	"math/rand"
+	"runtime"
+	"sync"
+	"time"
+
+	"github.com/vbauerster/mpb/v8"
+)
+
+// RunFree executes a scenario without gates and outside a synctest bubble: real goroutines,
+// real (short) refresh period, seeded yields between client calls.  It reaches the races
+// the gate scheduler cannot order (goroutine start-up, data races under -race) and feeds
+// the same monitors.
+func RunFree(sc *Scenario) (events []Event, fatal string) {
+	r := &run{sc: sc, barPtr: map[uintptr]string{}, bars: map[string]*barInfo{}, chanName: map[chan int]string{},
+		goidCl: map[string]int{}, free: true}
+	r.cond = sync.NewCond(&r.mu)
+	r.rng = rand.New(rand.NewSource(sc.Sched.Seed))
+	r.clDone = make([]bool, len(sc.Clients))
+	r.clPC = make([]int, len(sc.Clients))
+	for _, cl := range sc.Clients {
+		for _, op := range cl {
+			if op.Op == "wait" {
+				break
+			}
+			if op.Op == "add" {
+				r.addsLeft++
+			}
+		}
+	}
+	cfgj, _ := json.Marshal(sc.Cfg)
+	var cfgm map[string]interface{}
+	json.Unmarshal(cfgj, &cfgm)
+	r.rec(Event{"ev": "begin", "cfg": cfgm, "family": sc.Family, "nclients": len(sc.Clients), "mode": "free"})
+	mpb.SetVerifHook(r.freeHook)
+	defer mpb.SetVerifHook(nil)
+	r.stop = make(chan struct{})
+	r.outW = &outRec{r: r}
+	r.dbg = &dbgRec{r: r}
+	rate := 2 * time.Millisecond
+	opts := []mpb.ContainerOption{mpb.WithOutput(r.outW), mpb.WithDebugOutput(r.dbg), mpb.WithRefreshRate(rate)}
+	if sc.Cfg.Q >= 0 {
+		opts = append(opts, mpb.WithQueueLen(sc.Cfg.Q))
+	}
+	if sc.Cfg.Width > 0 {
+		opts = append(opts, mpb.WithWidth(sc.Cfg.Width))
+	}
+	switch sc.Cfg.Refresh {
+	case "auto":
+		opts = append(opts, mpb.WithAutoRefresh())
+	case "manual":
+		r.manual = make(chan interface{})
+		opts = append(opts, mpb.WithManualRefresh(r.manual))
+	}
+	if sc.Cfg.Pop {
+		opts = append(opts, mpb.PopCompletedMode())
+	}
+	nvals := 0
+	notifDone := make(chan struct{})
+	if sc.Cfg.Notifier {
+		r.notif = make(chan interface{})
+		opts = append(opts, mpb.WithShutdownNotifier(r.notif))
+		go func() {
+			defer close(notifDone)
+			for {
+				select {
+				case v := <-r.notif:
+					nvals++
+					names := []string{}
+					if bars, ok := v.([]*mpb.Bar); ok {
+						for _, b := range bars {
+							names = append(names, r.barOfPtr(ptrOf(b)))
+						}
+					}
+					r.rec(Event{"ev": "notify", "bars": names, "nth": nvals})
+				case <-r.stop:
+					return
+				}
+			}
+		}()
+	} else {
+		close(notifDone)
+	}
+	ctx := context.Background()
+	if sc.Cfg.Ctx {
+		ctx, r.cancel = context.WithCancel(ctx)
+	}
+	r.p = mpb.NewWithContext(ctx, opts...)
+	var wg sync.WaitGroup
+	for c := range sc.Clients {
+		wg.Add(1)
+		seed := sc.Sched.Seed + int64(c)*7919
+		go func(c int) {
+			defer wg.Done()
+			r.freeClient(c, rand.New(rand.NewSource(seed)))
+		}(c)
+	}
+	done := make(chan struct{})
+	go func() { wg.Wait(); close(done) }()
+	select {
+	case <-done:
+	case <-time.After(20 * time.Second):
+		r.rec(Event{"ev": "hang", "kind": "timeout", "pending": r.pendingCalls(), "parked": []string{}, "goroutines": libGoroutines(), "infmt": false})
+		r.rec(Event{"ev": "end"})
+		exitNow(r.events)
+		return r.events, "hang"
+	}
+	if sc.Cfg.Notifier {
+		time.Sleep(2 * time.Millisecond)
+	}
+	nf := r.nFrames()
+	// settle: library goroutines may need a moment to notice the cancellation
+	var leaks []string
+	for i := 0; i < 200; i++ {
+		leaks = leaks[:0]
+		for _, g := range libGoroutines() {
+			leaks = append(leaks, g)
+		}
+		if len(leaks) == 0 {
+			break
+		}
+		time.Sleep(5 * time.Millisecond)
+	}
+	time.Sleep(3 * rate)
+	if r.nFrames() != nf {
+		r.rec(Event{"ev": "latewrite", "n": r.nFrames() - nf})
+	}
+	close(r.stop)
+	<-notifDone
+	if leaks == nil {
+		leaks = []string{}
+	}
+	r.rec(Event{"ev": "quiesce", "leaks": leaks, "nleaks": len(leaks), "notified": nvals})
+	if r.cancel != nil {
+		r.cancel()
+	}
+	r.rec(Event{"ev": "end"})
+	if len(leaks) > 0 {
+		fatal = "leak" // keep later scenarios clean: the worker is recycled
+	}
+	return r.events, fatal
+}
+
+// freeHook only observes; it never parks.  A seeded fraction of the points yield the processor
+// so that neighbouring goroutines overtake.
+func (r *run) freeHook(point string, args ...interface{}) {
+	switch point {
+	case "ct:hm":
+		if args[0].(int) == 0 {
+			r.rec(Event{"ev": "cycle"})
+		}
+	case "dp:send":
+		r.rec(Event{"ev": "detached", "b": r.barOf(args[0], false)})
+	case "ct:push":
+		r.barOf(args[0], true)
+	case "pw:cancel":
+		r.rec(Event{"ev": "closing"})
+	}
+	r.mu.Lock()
+	y := r.rng.Intn(4) == 0
+	r.mu.Unlock()
+	if y {
+		runtime.Gosched()
+	}
+}
+
+func (r *run) freeClient(c int, rng *rand.Rand) {
+	ops := r.sc.Clients[c]
+	for i := range ops {
+		op := &ops[i]
+		// wait until the call makes sense (the bar it names exists; Wait after every Add)
+		g := &gate{client: c, opIdx: i}
+		for n := 0; !r.eligible(g); n++ {
+			if n > 20000 {
+				return
+			}
+			time.Sleep(50 * time.Microsecond)
+		}
+		switch rng.Intn(4) {
+		case 0:
+			runtime.Gosched()
+		case 1:
+			time.Sleep(time.Duration(rng.Intn(1500)) * time.Microsecond)
+		}
+		r.exec(c, i, op)
+		r.mu.Lock()
+		r.clPC[c] = i + 1
+		r.mu.Unlock()
+	}
+	r.mu.Lock()
+	r.clDone[c] = true
+	r.mu.Unlock()
+}
